@@ -1,5 +1,5 @@
 (* The stamp encoding of multi-output steps (backends/make/writer.py multitarget_rule):
-       out1 .. outk: out1.stamp            (no recipe)
+       out1 .. outk: out1.stamp            (no recipe as first written; the no-op recipe  @:  after the repair)
        out1.stamp: deps | order ; recipe ; touch $@
    (1) At the level of the out-of-date test of Make/MakeSem.v the stamp stands in for the outputs: as long as the
        outputs carry the stamp's time (the recipe writes them and then touches the stamp; modifications of INPUTS keep
@@ -8,10 +8,16 @@
    (2) Whether the CONSUMERS of the outputs are rebuilt in the same run depends on when GNU Make looked at the outputs:
        Make walks depth first from its goals, reads the mtime of a target when it first considers it (before its
        prerequisites are brought up to date), keeps that value, and re-reads it only after running a recipe OF THAT
-       TARGET.  The rule  outs: stamp  has no recipe, so an output considered before the stamp's recipe ran keeps its
-       old mtime and its consumers are judged up to date.  [dmake] models exactly this walk (R model, validated against
-       GNU Make 4.3 by harness/c03.py stage R:stampsem on stamp-shaped graphs with several consumers and goal orders).
-   Definitions and the (short) proofs together; all executable. *)
+       TARGET.  Without a recipe on  outs: stamp  an output considered before the stamp's recipe ran keeps its
+       old mtime and its consumers are judged up to date (finding C03-make-stamp-consumer-stale).  With the no-op
+       recipe (RNoop) the recipe of an output that is older than the stamp runs - it writes nothing and is NOT a step:
+       it is recorded in [d_nlog], never in [d_log] - and Make then reads the output's mtime again.
+       The real recipe writes the outputs first and touches the stamp afterwards, so the stamp is usually strictly
+       newer than the outputs ([x_lag] > 0): the no-op recipe then runs again in every later make; no step does.
+       [dmake] models exactly this walk (R model, validated against GNU Make 4.3 by harness/c03.py stage R:stampsem
+       on stamp-shaped graphs of both rule shapes, with several consumers, goal orders and lags).
+   Definitions and the (short) proofs together; all executable.  The general theorem for the repaired shape is in
+   Graph/EmitStampProofs.v. *)
 From BFG Require Import Base.Chars Make.MakeSem Make.MakeSemProofs.
 Local Open Scope N_scope.
 
@@ -53,13 +59,18 @@ Proof.
 Qed.
 
 (* ------------------------------------------------------------------ (2) the depth-first walk with cached mtimes *)
+Inductive rkind := RNone | RReal | RNoop.     (* no recipe; a recipe that creates its target; the no-op recipe  @:  *)
+
 Record xrule := mkX {
-  x_target : file; x_prereqs : list file; x_order : list file; x_recipe : bool; x_phony : bool;
-  x_also : list file        (* further files the recipe writes (the outputs, for a stamp rule) *)
+  x_target : file; x_prereqs : list file; x_order : list file; x_recipe : rkind; x_phony : bool;
+  x_also : list file;       (* further files the recipe writes (the outputs, for a stamp rule) *)
+  x_lag : N                 (* the target is written that many ticks after the also-files (touch $@ comes last) *)
 }.
 
 Record dst := mkD {
-  d_fs : fs; d_clk : time; d_log : list file;
+  d_fs : fs; d_clk : time;
+  d_log : list file;                        (* targets whose (real) recipe ran: the executed steps *)
+  d_nlog : list file;                       (* targets whose no-op recipe ran *)
   d_cache : list (file * option time);      (* what Make believes the mtimes are *)
   d_done : list file; d_fail : bool
 }.
@@ -74,7 +85,7 @@ Fixpoint assoc (x : file) (l : list (file * option time)) : option (option time)
 Definition stat (t : file) (s : dst) : dst :=
   match assoc t (d_cache s) with
   | Some _ => s
-  | None => mkD (d_fs s) (d_clk s) (d_log s) ((t, d_fs s t) :: d_cache s) (d_done s) (d_fail s)
+  | None => mkD (d_fs s) (d_clk s) (d_log s) (d_nlog s) ((t, d_fs s t) :: d_cache s) (d_done s) (d_fail s)
   end.
 Definition mt (s : dst) (t : file) : option time :=
   match assoc t (d_cache s) with Some v => v | None => d_fs s t end.
@@ -85,10 +96,32 @@ Definition newer_o (a b : option time) : bool :=
   match a, b with Some x, Some y => y <? x | _, _ => false end.
 
 Definition mark (t : file) (s : dst) : dst :=
-  mkD (d_fs s) (d_clk s) (d_log s) (d_cache s) (t :: d_done s) (d_fail s).
-Definition failed (s : dst) : dst := mkD (d_fs s) (d_clk s) (d_log s) (d_cache s) (d_done s) true.
+  mkD (d_fs s) (d_clk s) (d_log s) (d_nlog s) (d_cache s) (t :: d_done s) (d_fail s).
+Definition failed (s : dst) : dst := mkD (d_fs s) (d_clk s) (d_log s) (d_nlog s) (d_cache s) (d_done s) true.
 
 Definition write_all (f : fs) (l : list file) (c : time) : fs := fold_left (fun g x => upd g x c) l f.
+
+(* the state after the recipe of rule r (target t) ran in state s1 *)
+Definition run_recipe (r : xrule) (t : file) (s1 : dst) : dst :=
+  match x_recipe r with
+  | RNone => mark t s1
+  | RReal =>
+      let c := d_clk s1 in
+      let f1 := write_all (d_fs s1) (x_also r) c in
+      let f2 := if x_phony r then f1 else upd f1 t (c + x_lag r) in
+      (* only the target itself is looked at again after its recipe *)
+      let cache := if x_phony r then d_cache s1 else (t, Some (c + x_lag r)) :: d_cache s1 in
+      mkD f2 (c + x_lag r + 1) (d_log s1 ++ [t]) (d_nlog s1) cache (t :: d_done s1) false
+  | RNoop =>
+      (* nothing is written; the target is looked at again *)
+      let cache := if x_phony r then d_cache s1 else (t, d_fs s1 t) :: d_cache s1 in
+      mkD (d_fs s1) (d_clk s1) (d_log s1) (d_nlog s1 ++ [t]) cache (t :: d_done s1) false
+  end.
+
+Definition must_remake (rs : list xrule) (r : xrule) (t : file) (s1 : dst) : bool :=
+  let tm := mt s1 t in
+  x_phony r || is_none tm ||
+  existsb (fun p => is_none (mt s1 p) || x_phony_in rs p || newer_o (mt s1 p) tm) (x_prereqs r).
 
 Fixpoint update (fuel : nat) (rs : list xrule) (t : file) (s : dst) : dst :=
   match fuel with
@@ -102,29 +135,21 @@ Fixpoint update (fuel : nat) (rs : list xrule) (t : file) (s : dst) : dst :=
     | Some r =>
         let s1 := fold_left (fun a p => update n rs p a) (x_prereqs r ++ x_order r) s0 in
         if d_fail s1 then s1 else
-        let tm := mt s1 t in
-        let must := x_phony r || is_none tm ||
-                    existsb (fun p => is_none (mt s1 p) || x_phony_in rs p || newer_o (mt s1 p) tm) (x_prereqs r) in
-        if must && x_recipe r then
-          let c := d_clk s1 in
-          let f1 := write_all (d_fs s1) (x_also r) c in
-          let f2 := if x_phony r then f1 else upd f1 t c in
-          (* only the target itself is looked at again after its recipe *)
-          let cache := if x_phony r then d_cache s1 else (t, Some c) :: d_cache s1 in
-          mkD f2 (c + 1) (d_log s1 ++ [t]) cache (t :: d_done s1) false
-        else mark t s1
+        if must_remake rs r t s1 then run_recipe r t s1 else mark t s1
     end
   end.
 
 (* one invocation  make goals : a fresh Make process (empty cache) *)
 Definition dmake (rs : list xrule) (goals : list file) (f : fs) (clk : time) : dst :=
-  fold_left (fun a g => update (S (length rs)) rs g a) goals (mkD f clk [] [] [] false).
+  fold_left (fun a g => update (3 + length rs) rs g a) goals (mkD f clk [] [] [] [] false).
 
-(* the rules bfg9000 writes for: a 2-output build_step (files 10 11, stamp 12, input 1) and one consumer of each output *)
-Definition ex_stamp_rules : list xrule :=
-  [mkX 10 [12] [] false false []; mkX 11 [12] [] false false [];
-   mkX 12 [1] [] true false [10; 11];
-   mkX 20 [10] [] true false []; mkX 21 [11] [] true false []].
+(* the rules bfg9000 writes for: a 2-output build_step (files 10 11, stamp 12, input 1) and one consumer of each output;
+   k = the recipe of the outs rule, lag = how much later than the outputs the stamp is touched *)
+Definition ex_stamp_rules_v (k : rkind) (lag : N) : list xrule :=
+  [mkX 10 [12] [] k false [] 0; mkX 11 [12] [] k false [] 0;
+   mkX 12 [1] [] RReal false [10; 11] lag;
+   mkX 20 [10] [] RReal false [] 0; mkX 21 [11] [] RReal false [] 0].
+Definition ex_stamp_rules : list xrule := ex_stamp_rules_v RNone 0.
 
 (* After a complete build, touch the input and run  make : the step re-runs and the consumer of the output Make meets
    SECOND is rebuilt, the consumer of the output it met first is not; a further  make  (nothing touched) then rebuilds
@@ -143,20 +168,35 @@ Proof. vm_compute. repeat split. Qed.
 
 (* a single consumer of any output, reached from the goal, is never rebuilt in the run that re-runs the step *)
 Theorem stamp_single_consumer_refuted :
-  let rs := [mkX 10 [12] [] false false []; mkX 11 [12] [] false false [];
-             mkX 12 [1] [] true false [10; 11]; mkX 21 [11] [] true false []] in
+  let rs := [mkX 10 [12] [] RNone false [] 0; mkX 11 [12] [] RNone false [] 0;
+             mkX 12 [1] [] RReal false [10; 11] 0; mkX 21 [11] [] RReal false [] 0] in
   let b1 := dmake rs [21] (fs_of [(1, 5)]) 10 in
   let b3 := dmake rs [21] (upd (d_fs b1) 1 (d_clk b1)) (d_clk b1 + 1) in
   let b4 := dmake rs [21] (d_fs b3) (d_clk b3) in
   d_log b1 = [12; 21] /\ d_log b3 = [12] /\ d_log b4 = [21].
 Proof. vm_compute. repeat split. Qed.
 
+(* the same graph with the no-op recipe on the outs rule (the repaired shape), the stamp touched one tick after the
+   outputs: both consumers are rebuilt in the make that re-runs the step; the makes after it run no step - only the
+   no-op recipe of the outputs (older than their stamp) runs again *)
+Theorem stamp_consumers_repaired :
+  let rs := ex_stamp_rules_v RNoop 1 in
+  let b1 := dmake rs [20; 21] (fs_of [(1, 5)]) 10 in
+  let b2 := dmake rs [20; 21] (d_fs b1) (d_clk b1) in
+  let b3 := dmake rs [20; 21] (upd (d_fs b1) 1 (d_clk b1)) (d_clk b1 + 1) in
+  let b4 := dmake rs [20; 21] (d_fs b3) (d_clk b3) in
+  d_log b1 = [12; 20; 21] /\ d_log b2 = [] /\ d_nlog b2 = [10; 11] /\
+  d_log b3 = [12; 20; 21] /\ d_log b4 = [] /\
+  d_fail b1 = false /\ d_fail b3 = false /\ d_fail b4 = false.
+Proof. vm_compute. repeat split. Qed.
+
 (* wire helpers for the table *)
-Definition run_session (rs : list xrule) (goals : list file) : fs -> time -> list (N * file) -> list (list file * bool) :=
-  fix go (f : fs) (clk : time) (ops : list (N * file)) : list (list file * bool) :=
+Definition run_session (rs : list xrule) (goals : list file) :
+  fs -> time -> list (N * file) -> list (list file * list file * bool) :=
+  fix go (f : fs) (clk : time) (ops : list (N * file)) : list (list file * list file * bool) :=
     match ops with
     | [] => []
-    | (0, _) :: r => let b := dmake rs goals f clk in (d_log b, d_fail b) :: go (d_fs b) (d_clk b) r
+    | (0, _) :: r => let b := dmake rs goals f clk in (d_log b, d_nlog b, d_fail b) :: go (d_fs b) (d_clk b) r
     | (1, x) :: r => go (upd f x clk) (clk + 1) r
     | (_, x) :: r => go (del f x) clk r
     end.
